@@ -16,7 +16,7 @@ pub struct Case {
     pub conns: u8,
 }
 
-const W: Duration = Duration::from_secs(4);
+const W: Duration = Duration::from_secs(8);
 
 #[derive(Clone, Copy, PartialEq, Debug)]
 enum Role {
